@@ -453,7 +453,18 @@ GRIDS = {'solid': [dict(M=5, impl='real'), dict(M=4, impl='fast', mult=4), dict(
 
 def run(ctx):
   q = ctx.quick
-  r = ctx.tlc('Balanced', 'Balanced.cfg')
+  # the six machines are independent: model check them side by side (results are consumed below in the old order)
+  from concurrent.futures import ThreadPoolExecutor
+  pool = ThreadPoolExecutor(4)
+  jobs = {
+      'balanced': pool.submit(ctx.tlc, 'Balanced', 'Balanced.cfg', workers=4),
+      'column': pool.submit(ctx.tlc, 'ColumnTendency', 'ColumnTendency_quick.cfg' if q else 'ColumnTendency_thorough.cfg', workers=4),
+      'sw1': pool.submit(ctx.tlc, 'ShallowWaterPoly', 'ShallowWaterPoly_1.cfg', tag='swpoly1', workers=4),
+      'sw2': pool.submit(ctx.tlc, 'ShallowWaterPoly', 'ShallowWaterPoly_2.cfg', tag='swpoly2', workers=4),
+      'pe': pool.submit(ctx.tlc, 'PrimitivePoly', 'PrimitivePoly_quick.cfg' if q else 'PrimitivePoly_thorough.cfg', tag='pepoly', workers=4, timeout=7200),
+      'pe3': pool.submit(ctx.tlc, 'PrimitivePoly', 'PrimitivePoly_deep.cfg' if q else 'PrimitivePoly_deep_thorough.cfg', tag='pepoly3', workers=4, timeout=7200),
+  }
+  r = jobs['balanced'].result()
   ctx.require_actions(r, ['Solid', 'Rest', 'Jet'])
   items = []
   for i, c in enumerate(r.cases):
@@ -474,7 +485,7 @@ def run(ctx):
   for fam in ('solid', 'rest', 'jet'):
     ctx.sample(next(c for c in items if c['cfg']['family'] == fam))
   # column family: unbalanced states whose exact (non-zero) tendencies the machine derives
-  rc = ctx.tlc('ColumnTendency', 'ColumnTendency_quick.cfg' if q else 'ColumnTendency_thorough.cfg')
+  rc = jobs['column'].result()
   ctx.require_actions(rc, ['BuildH', 'BuildHs', 'BuildG'])
   groups = {}
   for c in rc.cases:
@@ -497,7 +508,7 @@ def run(ctx):
   # polynomial fields on the sphere: non-zonal unbalanced shallow-water states, total tendency pointwise
   sw_cases = []
   for layers in (1, 2):
-    rs = ctx.tlc('ShallowWaterPoly', f'ShallowWaterPoly_{layers}.cfg', tag=f'swpoly{layers}', workers=6)
+    rs = jobs[f'sw{layers}'].result()
     ctx.require_actions(rs, ['Diagnose', 'Vorticity', 'Divergence', 'Potential'])
     cs = sorted(rs.cases, key=lambda c: json.dumps(c, sort_keys=True))
     if len(cs) < 100 or not any(l['vorticity'] for c in cs for l in c['layers']):
@@ -516,9 +527,11 @@ def run(ctx):
               'layer0': sw_cases[len(sw_cases) // 2]['layers'][0]})
   ctx.notes['shallow_water_polynomial_cases'] = len(sw_cases)
   # ... and the dry primitive equations with a tracer on two levels (cubic products: larger grids)
-  rp = ctx.tlc('PrimitivePoly', 'PrimitivePoly_quick.cfg' if q else 'PrimitivePoly_thorough.cfg', tag='pepoly', workers=6, timeout=7200)
+  rp = jobs['pe'].result()
   ctx.require_actions(rp, ['Diagnose', 'Vorticity', 'Divergence', 'Temperature', 'Rest'])
-  rp3 = ctx.tlc('PrimitivePoly', 'PrimitivePoly_deep.cfg' if q else 'PrimitivePoly_deep_thorough.cfg', tag='pepoly3', workers=4, timeout=7200)
+  rp3 = jobs['pe3'].result()
+  pool.shutdown()
+  ctx.tlc_runs.sort(key=lambda r_: (r_.module, r_.cfg))
   ctx.require_actions(rp3, ['Diagnose', 'Vorticity', 'Divergence', 'Temperature', 'Rest'])     # three levels: an interior level
   if not any(len(c['b']) == 4 for c in rp3.cases):
     raise common.MachineryError('PrimitivePoly: no three-level case exported')
